@@ -500,7 +500,20 @@ func genC06(r *Rand, p *Plan, tier string) {
 			cs.Handler = append(cs.Handler, st)
 			s.seq += 2
 		}
-		insertAwaits(r, &cs, PickOf(r, 0, 50, 100))
+		extras := false
+		for _, st := range cs.Handler {
+			if len(st.Extra) > 0 {
+				extras = true
+			}
+		}
+		if !deep && !extras && r.Chance(15) {
+			// the transport refuses one write outright (nothing of it goes out); the client
+			// pipelines, and every other reply must still be a whole, correct packet
+			cs.WFault = append(cs.WFault, WFaultAt(1+r.Intn(6), "error"))
+			p.Scen.Faulty = true
+		} else {
+			insertAwaits(r, &cs, PickOf(r, 0, 50, 100))
+		}
 		p.Scen.Clients = append(p.Scen.Clients, cs)
 	}
 	p.MaxSteps = 6000
